@@ -396,6 +396,30 @@ def _gen_rsa(r, tier, f, focus):
     ops.append(op)
     return op
 
+  deny_idx = [j for j in range(n) if pool[j]["fam"] == "denylisted"]
+  if fault_budget and deny_idx and r.random() < 0.7:
+    # one of the denylist files cannot be opened while the registry is first
+    # built; the caller carries on; a denylisted key must still be flagged
+    fault_budget = 0
+    b = deny_idx + [j for j in range(n) if j not in deny_idx][:2]
+    ops.append({"op": "seam_fault", "kind": "open_oserror",
+                "k": r.randrange(0, 3)})
+    ops.append({"op": "check_all", "batch": list(b), "log_level": 0,
+                "oracle": []})
+    ops.append({"op": "heal"})
+    ops.append({"op": "check", "batch": list(b), "c07": True,
+                "check": {"name": "CheckOpensslDenylist", "how": "registry",
+                          "via": "all"},
+                "oracle": [{"relation": "same", "order": list(b)}]})
+  if fault_budget and r.random() < 0.12:
+    # the VERSION resource is unreadable while the version module is
+    # (re)imported; the host retries the import after the fault
+    fault_budget = 0
+    ops.append({"op": "seam_fault", "kind": "open_oserror", "k": 0})
+    ops.append({"op": "reimport_version"})
+    ops.append({"op": "heal"})
+    ops.append({"op": "reimport_version", "only_if_failed": True})
+    ops.append({"op": "clone", "batch": list(range(n))})
   # optional fault episode at the very start (first registry fill)
   if fault_budget and r.random() < 0.45:
     fault_budget = 0
